@@ -327,6 +327,7 @@ pub fn predicate_holds(name: &str, plan: &Plan, v: &Violation) -> bool {
         "has_spectator" => plan.nodes.iter().any(|n| matches!(n.kind, NodeKind::Spectator { .. })),
         "violating_node_is_spectator" => plan.nodes.get(v.node).is_some_and(|n| matches!(n.kind, NodeKind::Spectator { .. })),
         "has_injection" => !plan.injects.is_empty(),
+        "survivors_received_different_amounts" => v.class.ends_with("+split"),
         "never_drains_events" => plan.nodes.iter().any(|n| !n.drain),
         other => {
             eprintln!("unknown predicate {other} in known_findings.json");
